@@ -81,6 +81,25 @@ theorem osm_rules (s : Sets) :
   · intro id members tags ha
     simp [featuresOf, ha]
 
+/-- **Polygons follow the outer/inner members.** When every way member of a multipolygon relation is a closed
+way of the input, its area's polygons are exactly the way members (in order) cut before every member whose role
+is `outer` or empty: the cut loses and reorders nothing, no polygon is empty, inside a polygon only the first
+member can be an outer one, and every polygon after the first starts with an outer one. -/
+theorem multipolygon_cut_rule (s : Sets) (id : Int64) (members : List Member) (tags : List Tag)
+    (ha : isRelationArea tags = true) (hall : ∀ m ∈ members, m.type = .way → s.areaWays.contains (u m.id) = true) :
+    let W := members.filter (fun m => m.type = .way)
+    featuresOf s (.relation id members tags) =
+        [.area (relAreaID id) (mapTags tags) ((cut W).map (·.map (pathID ·.id)))] ∧
+    (cut W).flatten = W ∧ (∀ p ∈ cut W, p ≠ [] ∧ ∀ m ∈ p.tail, isOuter m = false) ∧
+    (∀ p ∈ (cut W).tail, ∃ m t, p = m :: t ∧ isOuter m = true) := by
+  intro W
+  refine ⟨?_, cut_spec W⟩
+  simp only [featuresOf, ha, if_true, assemble_cut s.areaWays members hall, ids, List.map_map]
+  congr 2
+  apply List.map_congr_left
+  intro p _
+  simp [Function.comp_def]
+
 /-- The feature source is defined (does not panic) exactly when no way is without nodes, and then its
 output is the concatenation, in input order, of what the rules give for each element with the ID sets of
 the whole input. -/
@@ -221,6 +240,8 @@ example : ∃ s, collect sample = .ok s ∧
   ⟨{ areaWays := [u 10], areaRels := [u 30] }, by rfl, by decide⟩
 example : assemble [u 1, u 2, u 3] [] [] [⟨.way, 1, "outer"⟩, ⟨.way, 2, "inner"⟩, ⟨.node, 9, ""⟩, ⟨.way, 3, ""⟩] =
     some [[1, 2], [3]] := by decide
+example : cut [⟨.way, 1, "outer"⟩, ⟨.way, 2, "inner"⟩, ⟨.way, 3, ""⟩, ⟨.way, 4, "x"⟩] =
+    [[⟨.way, 1, "outer"⟩, ⟨.way, 2, "inner"⟩], [⟨.way, 3, ""⟩, ⟨.way, 4, "x"⟩]] := by decide
 example : keyForOSMKey "amenity" = "#amenity" ∧ keyForOSMKey "wikidata" = "@wikidata" ∧ keyForOSMKey "name" = "name" := by
   decide
 
